@@ -87,7 +87,13 @@ func (d *l3) fail(sig, f string, a ...any) {
 
 func (d *l3) cur() *leaderLog { return d.leaders[len(d.leaders)-1] }
 
-func (d *l3) data() string { d.seq++; return fmt.Sprintf("e%d", d.seq) }
+// data returns a unique payload of varying size (size-limited reads behave
+// differently for uniform and mixed entry sizes).
+func (d *l3) data() string {
+	d.seq++
+	pad := []int{0, 0, 3, 40, 90}[rapid.IntRange(0, 4).Draw(d.rt, "pad")]
+	return fmt.Sprintf("e%d", d.seq) + strings.Repeat("x", pad)
+}
 
 func newL3(rt *rapid.T) *l3 {
 	d := &l3{rt: rt}
